@@ -85,7 +85,8 @@ def run(chk, prog):
     rw = Evaluator(prog).eval_fn(wr, dm, env0={"dist": P("dist")})
     got = {}
     for conds, ret in rw.returns:
-        got["bare" if any(p for t, p in conds) else "kw"] = ret
+        # path conditions are in canonical polarity: `if implicit_logits is not None` is recorded as (implicit_logits is None, False)
+        got["bare" if any(is_t(t, "is") and t[2] == C(None) and not p for t, p in conds) else "kw"] = ret
     okw = got.get("bare") == ("call", P("dist"), (), (("**", P("kwargs")), ("logits", P("implicit_logits")))) and got.get("kw") == ("call", P("dist"), (), (("**", P("kwargs")),))
     chk.require(okw, "SIBLING-DENSITY", "implicit_logit_warning", "a bare parameter is the logits", derived={k: show(v) for k, v in got.items()}.__str__(), expected="dist(logits=implicit_logits, **kwargs) / dist(**kwargs)", where=f"{dm.rel}:{wr.lineno}")
     # ---- registry
